@@ -226,6 +226,15 @@ def apply_op(ctx, st, op, case):
                 del st.stored[txid]
             st.spent = {k: v for k, v in st.spent.items() if v not in gone}
             st.flags.add('remove_unconfirmed')
+        elif name == 'store_draft':
+            # first half of a two-step workflow: a payment is created and signed but not broadcast, and saved in the
+            # wallet database (store()); whatever the wallet makes of it, its three views stay equal
+            bal = int(w.balance())
+            if bal > 3000:
+                t = w.send_to(_foreign_addr(op.get('key', 0)), max(1000, bal * op['num'] // op['den']), broadcast=False,
+                              min_confirms=op.get('min_confirms', 1))
+                t.store()
+                st.flags.add('draft_stored')
         elif name == 'restore':
             # a stored sent transaction is read back from the database and written again (store(), or send() as a
             # re-broadcast): nothing changes - in particular outputs of it that later transactions consumed stay spent
@@ -436,6 +445,8 @@ def _strategy(ctx):
         st.fixed_dictionaries({'op': st.just('delete_received'), 'pick': st.integers(0, 5),
                                'all': st.sampled_from([False, True, True])}),
         st.just({'op': 'remove_unconfirmed'}),
+        st.fixed_dictionaries({'op': st.just('store_draft'), 'key': st.integers(0, 5), 'num': st.sampled_from([1, 1, 3]),
+                               'den': st.sampled_from([4, 10]), 'min_confirms': st.sampled_from([0, 1])}),
         st.fixed_dictionaries({'op': st.just('restore'), 'pick': st.integers(0, 3), 'how': st.sampled_from(['store', 'send'])}),
         st.fixed_dictionaries({'op': st.just('restore'), 'pick': st.just(0), 'how': st.sampled_from(['store', 'send'])}),
         st.just({'op': 'new_account'}), st.just({'op': 'new_account', 'fundable': True}),
